@@ -75,11 +75,46 @@ func closureOf(v ssa.Value) *ssa.Function {
 			v = st
 		case *ssa.ChangeType:
 			v = x.X
+		case *ssa.Call:
+			// a private constructor of the callback: every return hands back a closure of one anonymous function
+			if mc := builtClosure(x); mc != nil {
+				v = mc
+				continue
+			}
+			return nil
 		default:
 			return nil
 		}
 	}
 	return nil
+}
+
+// builtClosure: call is a static call of a function with a single result whose every return is a MakeClosure of the
+// same anonymous function (a helper that builds a callback and returns it); returns that MakeClosure.
+func builtClosure(call *ssa.Call) *ssa.MakeClosure {
+	g := call.Call.StaticCallee()
+	if g == nil || len(g.Blocks) == 0 || g.Signature.Results().Len() != 1 {
+		return nil
+	}
+	var the *ssa.MakeClosure
+	for _, ret := range returnsOf(g) {
+		if len(ret.Results) != 1 {
+			return nil
+		}
+		v := ret.Results[0]
+		if ct, ok := v.(*ssa.ChangeType); ok {
+			v = ct.X
+		}
+		mc, ok := v.(*ssa.MakeClosure)
+		if !ok {
+			return nil
+		}
+		if the != nil && the.Fn != mc.Fn {
+			return nil
+		}
+		the = mc
+	}
+	return the
 }
 
 // singleStoreTo returns the value stored to addr if there is exactly one
